@@ -90,7 +90,7 @@ Qed.
    fails iff some designation denotes it, removes exactly that node and keeps every other node's count exact *)
 Lemma walk_M g f l r pos nodes ins :
   M g (Alloc f l :: r) pos nodes ins ->
-  forall found, (length (filter (hits pos) ins) <= (if found then 0 else 1))%nat ->
+  forall found : bool, (length (filter (hits pos) ins) <= (if found then 0 else 1))%nat ->
   forall ns fd, walk (g + 1) l found nodes = (ns, fd) ->
   M (g + 1) r (S pos) ns ins /\ fd = found || existsb (hits pos) ins.
 Proof.
@@ -113,9 +113,9 @@ Proof.
       * unfold hits in Hfi. destruct (e_tgt e) as [t|] eqn:Et; [|discriminate Hfi].
         symmetry in Hfi. apply Nat.eqb_eq in Hfi. subst t. eapply M_fired; eauto.
       * rewrite Hfd. reflexivity.
-    + rewrite andb_false_l in Hw.
+    + try rewrite andb_false_l in Hw.
       destruct (walk (g + 1) l found nodes) as [r' fd'] eqn:Ew. inversion Hw; subst; clear Hw.
-      destruct (IHHM found Hc r' fd eq_refl) as [HM' Hfd].
+      destruct (IHHM found Hc r' fd Ew) as [HM' Hfd].
       split; [apply M_live; auto|exact Hfd].
 Qed.
 
@@ -244,7 +244,7 @@ Proof.
           destruct (n <? 0) eqn:E2.
           * assert (E3 : n <=? -1 = true) by lia. rewrite E3.
             assert (E' : (0 <=? n) && (n <=? k + 1) = false) by lia. rewrite E'. rewrite Hcu, a0_not_null.
-            split; [reflexivity|]. split; [lia|]. rewrite E2. auto.
+            split; [reflexivity|]. split; [lia|]. try rewrite E2. auto.
           * assert (E3 : n - k <=? -1 = false) by lia. rewrite E3.
             assert (E4 : n - k =? 0 = false) by lia. rewrite E4. simpl.
             destruct (n - k - 1 =? 0) eqn:E5.
@@ -253,7 +253,7 @@ Proof.
                split; [lia|]. unfold get_cur in Hcu. simpl. rewrite Hcu. auto.
             -- assert (E' : (0 <=? n) && (n <=? k + 1) = false) by lia. rewrite E'.
                unfold get_cur in *; simpl. rewrite Hcu, a0_not_null. split; [reflexivity|]. split; [lia|].
-               rewrite E2. split; [lia|]. auto.
+               try rewrite E2. split; [lia|]. auto.
       - destruct HI as (Hc & Ho & Hcu). rewrite Hc. simpl. rewrite Hcu, a0_not_null. auto. }
     destruct Hs as [Hn HI']. rewrite Hn. unfold cdeliver.
     destruct (oom_at arm (k + 1)); simpl; apply IH; assumption.
@@ -268,3 +268,215 @@ Proof.
   - apply run_check; [apply inv0|exact Hv].
   - apply crun_check; [apply ci0|exact Hv].
 Qed.
+
+(* ------------------------------------------------------------------ Prop-level readings *)
+Lemma ares_eqb_eq a b : ares_eqb a b = true -> a = b.
+Proof. destruct a, b; simpl; intros H; try reflexivity; discriminate H. Qed.
+
+Lemma check_allocs : forall ops g ins pos obs,
+  check g ins ops pos obs = true -> alloc_results obs = expected_allocs g ins ops pos.
+Proof.
+  induction ops as [|o r IH]; intros g ins pos obs H; simpl in *.
+  - destruct obs; [reflexivity|discriminate H].
+  - destruct (sstep g ins o r pos) as [g' ins'] eqn:Es.
+    destruct o; simpl in *; try (apply IH; exact H).
+    + destruct obs as [|it obs']; [discriminate H|]. apply andb_prop in H. destruct H as [Hi Hc].
+      destruct it; try discriminate Hi. simpl. apply ares_eqb_eq in Hi. rewrite Hi. f_equal. apply IH; exact Hc.
+    + destruct obs as [|it obs']; [discriminate H|]. apply andb_prop in H. destruct H as [Hi Hc].
+      destruct it; try discriminate Hi. simpl. apply IH; exact Hc.
+Qed.
+
+Lemma existsb_weaken {A} (p q : A -> bool) l : existsb (fun x => p x && q x) l = true -> existsb p l = true.
+Proof.
+  induction l as [|x t IH]; simpl; intros H; [discriminate H|].
+  apply orb_prop in H. destruct H as [H|H].
+  - apply andb_prop in H. destruct H as [H _]. rewrite H. reflexivity.
+  - rewrite (IH H). apply orb_true_r.
+Qed.
+
+Lemma check_checks : forall ops g ins pos obs,
+  check g ins ops pos obs = true -> check_flags obs = expected_checks g ins ops pos.
+Proof.
+  induction ops as [|o r IH]; intros g ins pos obs H; simpl in *.
+  - destruct obs; [reflexivity|discriminate H].
+  - destruct (sstep g ins o r pos) as [g' ins'] eqn:Es.
+    destruct o; simpl in *; try (apply IH; exact H).
+    + destruct obs as [|it obs']; [discriminate H|]. apply andb_prop in H. destruct H as [Hi Hc].
+      destruct it; try discriminate Hi. simpl. apply IH; exact Hc.
+    + destruct obs as [|it obs']; [discriminate H|]. apply andb_prop in H. destruct H as [Hi Hc].
+      destruct it as [| rep |]; try discriminate Hi. simpl. destruct rep as [rp|].
+      * apply existsb_weaken in Hi. rewrite Hi. f_equal. apply IH; exact Hc.
+      * apply negb_true_iff in Hi. rewrite Hi. f_equal. apply IH; exact Hc.
+Qed.
+
+Theorem exactly_designated : forall ops,
+  valid_from 0 [] ops 0 = true -> alloc_results (run_from st0 ops) = expected_allocs 0 [] ops 0.
+Proof. intros ops Hv. apply check_allocs. apply run_check; [apply inv0|exact Hv]. Qed.
+
+Theorem never_done_reported : forall ops,
+  valid_from 0 [] ops 0 = true -> check_flags (run_from st0 ops) = expected_checks 0 [] ops 0.
+Proof. intros ops Hv. apply check_checks. apply run_check; [apply inv0|exact Hv]. Qed.
+
+(* the installed designations (with the allocations they denote) after a prefix of the history *)
+Fixpoint srun (g : Z) (ins : list entry) (pre suf : list op) (pos : nat) : Z * list entry :=
+  match pre with
+  | [] => (g, ins)
+  | o :: r => let (g', ins') := sstep g ins o (r ++ suf) pos in srun g' ins' r suf (S pos)
+  end.
+
+Lemma sim_prefix : forall pre suf s g ins pos,
+  Inv s g ins (pre ++ suf) pos -> valid_from g ins (pre ++ suf) pos = true ->
+  Inv (mrun s pre) (fst (srun g ins pre suf pos)) (snd (srun g ins pre suf pos)) suf (pos + length pre)
+  /\ valid_from (fst (srun g ins pre suf pos)) (snd (srun g ins pre suf pos)) suf (pos + length pre) = true.
+Proof.
+  induction pre as [|o r IH]; intros suf s g ins pos HI Hv; simpl in *.
+  - rewrite Nat.add_0_r. split; assumption.
+  - apply andb_prop in Hv. destruct Hv as [Hsv Hv].
+    destruct (step_ok _ _ _ _ _ _ HI Hsv) as [HI' _].
+    destruct (sstep g ins o (r ++ suf) pos) as [g' ins']. simpl in *.
+    replace (pos + S (length r))%nat with (S pos + length r)%nat by lia.
+    apply IH; assumption.
+Qed.
+
+(* the failure names a designation that is really still waiting *)
+Theorem never_done_names_pending : forall pre suf rp,
+  valid_from 0 [] (pre ++ Check :: suf) 0 = true -> check_report (mrun st0 pre) = Some rp ->
+  exists e, In e (snd (srun 0 [] pre (Check :: suf) 0)) /\ pending (length pre) e = true /\ rep_matches (e_d e) rp = true.
+Proof.
+  intros pre suf rp Hv Hr.
+  destruct (sim_prefix pre (Check :: suf) st0 0 [] 0%nat (inv0 _) Hv) as [[_ HM] _]. simpl in HM.
+  unfold check_report in Hr.
+  destruct (s_nodes (mrun st0 pre)) as [|nd rest] eqn:En; [discriminate Hr|]. inversion Hr; subst rp; clear Hr.
+  destruct (M_check _ _ _ _ _ HM) as [_ H2]. specialize (H2 nd rest eq_refl).
+  apply existsb_exists in H2. destruct H2 as (e & Hin & Hb). apply andb_prop in Hb. destruct Hb as [Hp Hm].
+  exists e. unfold rep_of in Hm. auto.
+Qed.
+
+(* at any point of any valid history: the next allocation fails iff an installed designation denotes it *)
+Theorem next_alloc_fails_iff : forall pre f l suf,
+  valid_from 0 [] (pre ++ Alloc f l :: suf) 0 = true ->
+  snd (mstep (mrun st0 pre) (Alloc f l)) =
+  Some (OAlloc (if existsb (hits (length pre)) (snd (srun 0 [] pre (Alloc f l :: suf) 0)) then fail_res f else ROk)).
+Proof.
+  intros pre f l suf Hv.
+  destruct (sim_prefix pre (Alloc f l :: suf) st0 0 [] 0%nat (inv0 _) Hv) as [HI Hv']. simpl in HI, Hv'.
+  apply andb_prop in Hv'. destruct Hv' as [Hsv _].
+  destruct (step_ok _ _ _ _ _ _ HI Hsv) as [_ Hout].
+  destruct (snd (mstep (mrun st0 pre) (Alloc f l))) as [i|] eqn:Ei.
+  - destruct Hout as [_ Hok]. simpl in Hok. destruct i; try discriminate Hok. apply ares_eqb_eq in Hok. rewrite Hok. reflexivity.
+  - simpl in Hout. discriminate Hout.
+Qed.
+
+Lemma run_from_app : forall pre s suf, run_from s (pre ++ suf) = run_from s pre ++ run_from (mrun s pre) suf.
+Proof.
+  induction pre as [|o r IH]; intros s suf; simpl; [reflexivity|].
+  destruct (mstep s o) as [s' it]. simpl. destruct it; simpl; rewrite IH; reflexivity.
+Qed.
+
+(* clearing restores the initial behaviour whatever happened before *)
+Theorem clear_restores : forall pre suf,
+  run_from st0 (pre ++ Clear :: suf) = run_from st0 pre ++ run_from st0 suf.
+Proof. intros pre suf. rewrite run_from_app. reflexivity. Qed.
+
+Theorem clear_restores_spec : forall g ins suf pos, sstep g ins Clear suf pos = (0, []).
+Proof. reflexivity. Qed.
+
+(* ---- countdown, closed form *)
+Lemma tick_ok custom s arm k :
+  CI custom s arm k -> is_null (get_cur (c_tick s)) = oom_at arm (k + 1) /\ CI custom (c_tick s) arm (k + 1).
+Proof.
+  intros HI. unfold c_tick, oom_at, CI in *. destruct arm as [[|n]|].
+  - destruct HI as (Hc & Ho & Hcu). rewrite Hc. simpl. unfold get_cur. rewrite Hcu. auto.
+  - destruct HI as (Hk & HI).
+    destruct ((0 <=? n) && (n <=? k)) eqn:E.
+    + destruct HI as (Hc & Ho & Hcu). rewrite Hc. simpl. unfold get_cur. rewrite Hcu. simpl.
+      assert (E' : (0 <=? n) && (n <=? k + 1) = true) by lia. rewrite E'. split; [reflexivity|]. split; [lia|]. auto.
+    + destruct HI as (Hc & Ho & Hcu). rewrite Hc.
+      destruct (n <? 0) eqn:E2.
+      * assert (E3 : n <=? -1 = true) by lia. rewrite E3.
+        assert (E' : (0 <=? n) && (n <=? k + 1) = false) by lia. rewrite E'. rewrite Hcu, a0_not_null.
+        split; [reflexivity|]. split; [lia|]. auto.
+      * assert (E3 : n - k <=? -1 = false) by lia. rewrite E3.
+        assert (E4 : n - k =? 0 = false) by lia. rewrite E4. simpl.
+        destruct (n - k - 1 =? 0) eqn:E5.
+        -- assert (E' : (0 <=? n) && (n <=? k + 1) = true) by lia. rewrite E'.
+           unfold c_set_oom, get_cur; simpl. rewrite Ho. split; [reflexivity|]. split; [lia|].
+           split; [lia|]. unfold get_cur in Hcu. simpl. rewrite Hcu. auto.
+        -- assert (E' : (0 <=? n) && (n <=? k + 1) = false) by lia. rewrite E'.
+           unfold get_cur in *; simpl. rewrite Hcu, a0_not_null. split; [reflexivity|]. split; [lia|].
+           split; [lia|]. auto.
+  - destruct HI as (Hc & Ho & Hcu). rewrite Hc. simpl. rewrite Hcu, a0_not_null. auto.
+Qed.
+
+Lemma allocs_closed custom : forall fams s arm k,
+  CI custom s arm k ->
+  alloc_results (crun_from s (map CAlloc fams)) =
+  map (fun i => if oom_at arm i then RNull else ROk) (zseq (k + 1) (length fams)).
+Proof.
+  induction fams as [|f r IH]; intros s arm k HI; [reflexivity|].
+  simpl. destruct (tick_ok _ _ _ _ HI) as [Hn HI']. rewrite Hn. unfold cdeliver. f_equal.
+  apply IH. exact HI'.
+Qed.
+
+Lemma arm_ok custom s n : CI custom s None 0 -> CI custom (c_countdown_arm s n) (Some (ArmCount n)) 0.
+Proof.
+  intros (Hc & Ho & Hg). unfold c_countdown_arm, CI.
+  split; [lia|].
+  destruct (n =? 0) eqn:En.
+  - assert (n = 0) by lia. subst n. simpl. unfold c_set_oom; simpl. rewrite Ho. unfold get_cur in *. simpl. rewrite Hg. auto.
+  - destruct (0 <=? n) eqn:E0; simpl.
+    + destruct (n <=? 0) eqn:E1; [lia|]. simpl. destruct (n <? 0) eqn:E2; [lia|]. split; [lia|]. auto.
+    + destruct (n <? 0) eqn:E2; [|lia]. auto.
+Qed.
+
+(* countdown n armed from a clean state: allocation i (1-based) fails iff 0 <= n <= i, whatever the wrappers used *)
+Theorem countdown_closed : forall custom n fams,
+  alloc_results (run (SCount custom (CCountdown n :: map CAlloc fams))) =
+  map (fun i => if (0 <=? n) && (n <=? i) then RNull else ROk) (zseq 1 (length fams)).
+Proof.
+  intros custom n fams. simpl.
+  apply (allocs_closed custom fams (c_countdown_arm (cst0 custom) n) (Some (ArmCount n)) 0).
+  apply arm_ok. apply ci0.
+Qed.
+
+Theorem countdown_all_histories : forall custom cops,
+  cvalid custom None 0 cops = true -> ccheck custom None 0 cops (crun_from (cst0 custom) cops) = true.
+Proof. intros. apply crun_check; [apply ci0|assumption]. Qed.
+
+(* ---- wrappers *)
+Theorem wrappers_null : (forall f, deliver f true = fail_res f /\ deliver f true <> RCrash /\ deliver f true <> ROk)
+                        /\ (forall cf, cdeliver cf true = RNull).
+Proof. split; [intros f; destruct f; simpl; repeat split; discriminate | intros cf; reflexivity]. Qed.
+
+Definition wrappers_null_old_stmt : Prop :=
+  (forall f, deliver_old f true <> RCrash) /\ (forall cf, cdeliver_old cf true = RNull).
+Theorem wrappers_null_old_refuted : ~ wrappers_null_old_stmt.
+Proof. intros [H _]. apply (H FStrdup). reflexivity. Qed.
+
+(* ---- the code before the repairs *)
+Definition exactly_designated_old_stmt : Prop :=
+  forall ops, valid_from 0 [] ops 0 = true -> check 0 [] ops 0 (run_from_old st0 ops) = true.
+Definition la : loc := ([97; 46; 99]%N, 10%N).
+Definition lb : loc := ([98; 46; 99]%N, 20%N).
+(* D6: failNthAllocAt(2, a.c:10), then two allocations at b.c:20 -- the second one failed *)
+Definition witness_D6 : list op := [FailAt 2 la; Alloc FDirect lb; Alloc FDirect lb].
+(* D7: failNthAllocAt(2, L) then failNthAllocAt(1, L), four allocations at L -- the 1st and 3rd failed *)
+Definition witness_D7 : list op := [FailAt 2 la; FailAt 1 la; Alloc FMalloc la; Alloc FMalloc la; Alloc FMalloc la; Alloc FMalloc la].
+Theorem exactly_designated_old_refuted_D6 : ~ exactly_designated_old_stmt.
+Proof. intros H. specialize (H witness_D6 eq_refl). vm_compute in H. discriminate H. Qed.
+Theorem exactly_designated_old_refuted_D7 : ~ exactly_designated_old_stmt.
+Proof. intros H. specialize (H witness_D7 eq_refl). vm_compute in H. discriminate H. Qed.
+
+(* ---- the hypotheses of the theorems are satisfiable by non-trivial scenarios *)
+Example ex_valid_mixed :
+  valid (SFail [FailAt 2 la; FailG 1; FailAt 1 la; Alloc FNew lb; Alloc FMalloc la; Check; Alloc FMalloc la; Check; Clear; Alloc FDirect la]) = true
+  /\ run (SFail [FailAt 2 la; FailG 1; FailAt 1 la; Alloc FNew lb; Alloc FMalloc la; Check; Alloc FMalloc la; Check; Clear; Alloc FDirect la])
+     = [OAlloc RBadAlloc; OAlloc RNull; OCheck (Some (RepL la)); OAlloc RNull; OCheck None; OAlloc ROk].
+Proof. split; vm_compute; reflexivity. Qed.
+Example ex_valid_D7 : valid (SFail witness_D7) = true /\ alloc_results (run (SFail witness_D7)) = [RNull; RNull; ROk; ROk].
+Proof. split; vm_compute; reflexivity. Qed.
+Example ex_valid_count :
+  valid (SCount true [CCountdown 2; CAlloc CMalloc; CAlloc CStrdup; CAlloc CCalloc; CSetNot; CAlloc CMalloc]) = true
+  /\ run (SCount true [CCountdown 2; CAlloc CMalloc; CAlloc CStrdup; CAlloc CCalloc; CSetNot; CAlloc CMalloc])
+     = [OAlloc ROk; OAlloc RNull; OAlloc RNull; OReset ACustom; OAlloc ROk].
+Proof. split; vm_compute; reflexivity. Qed.
